@@ -47,7 +47,7 @@ def run(ctx):
     base = ('INIT Init\nNEXT Next\nCONSTANTS Part = "%s" NChunks = 16 Dense = %s\n'
             'INVARIANTS CtorInv SetsInv HomInv SymInv AncInv EqvInv Emit\nCHECK_DEADLOCK FALSE\n')
     parts = [(p, base % (p, dense)) for p in ('ctor', 'grp', 'anc')]
-    nobj = 14000 if ctx.quick else 250000
+    nobj = 14000 if ctx.quick else 500000
     rows, traces = vlib.lattice_pipeline(ctx, 'MC_ConicSym', parts, to_rows, 'drv_conic', ['replay'],
                                          ['record', ctx.seed, nobj], 'Trace_ConicSym',
                                          flavour_record=None if ctx.quick else 'san', min_vectors=5000)
